@@ -90,7 +90,7 @@ def runs_for(tier):
         # reconfiguration of a running proxy, another process in the way
         dict(tag="_reconf", started=True, maxops=3 if q else 5,
              world=mk_world(["regular@8080", "socks5@8080", "dns@5353", "regular@127.0.0.1:8080", "bogus@1", "regular"]),
-             configs=[(), (1,), (2,), (1, 3), (1, 4), (4, 1), (1, 2), (1, 5), (3,), (1, 6)],
+             configs=[(), (1,), (2,), (1, 3), (1, 4), (4, 1), (1, 2), (1, 5), (6,), (1, 6)],
              ext=[U5353, T8080], alone=[], ops=["SetMode", "ExtBind", "ExtFree"]),
         # start-up order, the server option, privileged / foreign / bracketed addresses, port 0
         dict(tag="_startup", started=False, maxops=4 if q else 5,
@@ -125,7 +125,7 @@ def runs_for(tier):
                              "reverse:https://a.example@0", "dns@5353", "regular", "transparent@127.0.0.1:8070",
                              "reverse:udp://a.example:9@127.0.0.1:8083"],
                             nov6=True, opt_host="127.0.0.2", opt_port=8070),
-             configs=[(1,), (2, 3), (4, 5), (6, 7), (2, 6), (8, 1)], ext=[], alone=[4, 3],
+             configs=[(1,), (2, 3), (4, 5), (6, 7), (2, 6)] + ([] if q else [(8, 1)]), ext=[], alone=[4, 3],
              ops=["SetMode", "Make", "IStart", "IStop", "SetServer"]),
     ]
 
@@ -175,7 +175,7 @@ class Check(core.PropertyCheck):
         "update_in_progress", "option_changed_during_update", "port_reused_after_stop", "port_held_by_other_process",
         "port_held_by_own_instance", "bind_ok", "bind_EADDRINUSE", "bind_EACCES", "bind_EADDRNOTAVAIL", "bind_EAI",
         "dual_transport", "port_zero", "explicit_host", "direct_start", "direct_start_failed", "direct_stop",
-        "start_after_fallback", "self_connect_refused", "other_connect_allowed", "self_connect_ephemeral_port")
+        "start_after_fallback", "port_hint_shown", "self_connect_refused", "other_connect_allowed", "self_connect_ephemeral_port")
     REQUIRED_ACTIONS = ()
     ASSUMPTIONS = (
         "the operating system is the fake of lib/vf/modenet.py: asyncio.start_server, mitmproxy_rs.udp.start_udp_server, "
@@ -273,7 +273,7 @@ class Check(core.PropertyCheck):
             g = m.graph
             if g is not None:
                 behs = g.edge_cover(ctx.rng, max_len=80, tail=10)
-                behs += g.random_walks(ctx.rng, 40 if ctx.quick else 1500, 60)
+                behs += g.random_walks(ctx.rng, 20 if ctx.quick else 1500, 60)
             else:
                 behs = m.behs
             world = dict(r["world"])
@@ -295,7 +295,7 @@ class Check(core.PropertyCheck):
                 if pred is not None:
                     pred = list(core.tlaval.to_py(b[0][2].get("obs", ()))) + pred
                 yield core.Scenario({"world": world, "ops": ops}, predicted=pred, source="model")
-                if len(ops) > 1 and ctx.rng.random() < (0.15 if ctx.quick else 0.5):
+                if len(ops) > 1 and ctx.rng.random() < (0.10 if ctx.quick else 0.5):
                     # the same behaviour under asyncio.eager_task_factory (what Master.run installs): monitor only
                     yield core.Scenario({"world": dict(world, eager=True), "ops": ops}, source="model-eager")
         rng = random.Random(ctx.seed + 202)
